@@ -641,7 +641,11 @@ def expected_translate_calls(log, c, p, vf, variant):
             # tal:content with i18n:translate="": the value itself is the message id (before it is converted and escaped);
             # the recording function notes text and message objects
             v = ev["v"]
-            if v["t"] == "str":
+            if ev.get("id"):
+                # explicit id: the value (as it is, before conversion) is the default
+                dflt = _val_text(v, vf, None) if v["t"] == "str" else (v["n"] if v["t"] == "int" else "<other>")
+                calls.append((ev["id"], None, dflt, ev["d"] or None, ev["c"] or None, ev["t"] or None))
+            elif v["t"] == "str":
                 calls.append((_val_text(v, vf, None), None, None, ev["d"] or None, ev["c"] or None, ev["t"] or None))
             elif v["t"] == "obj" and v.get("kind") == "msg":
                 calls.append(("<msg>", None, None, ev["d"] or None, ev["c"] or None, ev["t"] or None))
@@ -781,8 +785,12 @@ def _print_atoms(atoms, c, p, vf, objs=None, log=None, variant="identity"):
             t = _val_text(a["v"], vf, objs)
             if t is None:
                 continue
-            if a.get("tr") and a["v"]["t"] == "str":
-                t = tf_result(variant, t, None, None)
+            if a.get("tr"):
+                tid = p["items"][a["i"] - 1]["tr"]["id"]
+                if tid:
+                    t = tf_result(variant, tid, None, t)
+                elif a["v"]["t"] == "str":
+                    t = tf_result(variant, t, None, None)
             segs.append(t if a["esc"] == "struct" else esc_text(t))
         elif k == "sep":
             it = p["items"][a["i"] - 1]
